@@ -8,6 +8,7 @@
   write / close / set_pipelined on `f` raises).
 -/
 import PV.Model.SftpClientPut
+import PV.Model.SftpGetLemmas
 namespace PV.Props.C29
 open PV PV.SftpClient
 
@@ -155,6 +156,55 @@ theorem putfo_normal_return_implies_destination_equals_source (maxReq nfiles : N
       exact hnone sl hsl ho
   rw [hpend] at d1
   simpa [pdata, resetBad] using d1
+
+/-! ## get / getfo under read faults (no prefetch; the prefetching path is C28's model) -/
+
+/-- **getfo returned normally ⇒ local bytes = remote bytes**, for every plan of per-request server behaviour (each
+    READ either fails with an error status or returns 1..n true bytes, EOF exactly at the end of the file), every
+    request-size limit and chunk size > 0, every outcome of the initial stat and open: short reads are re-requested
+    by `BufferedFile.read`, the loop ends only at a true end of file. -/
+theorem getfo_normal_return_implies_local_equals_remote (remote : Bytes) (maxReq chunk statCode openCode : Nat)
+    (plan : List SftpGet.RdOut) (fuel : Nat) (b : Bytes) (hm : 0 < maxReq) (hc : 0 < chunk)
+    (h : SftpGet.getfo remote maxReq chunk statCode openCode plan fuel = .ok b) : b = remote :=
+  SftpGet.getfo_ok_exact hm hc h
+
+/-- the same for `get` (which additionally compares the local file's size with the byte count, raising
+    IOError("size mismatch in get!") on a difference) -/
+theorem get_normal_return_implies_local_equals_remote (remote : Bytes) (maxReq chunk statCode openCode : Nat)
+    (plan : List SftpGet.RdOut) (fuel : Nat) (b : Bytes) (hm : 0 < maxReq) (hc : 0 < chunk)
+    (h : SftpGet.get remote maxReq chunk statCode openCode plan fuel = .ok b) : b = remote := by
+  unfold SftpGet.get at h
+  cases hg : SftpGet.getfo remote maxReq chunk statCode openCode plan fuel with
+  | ok b' =>
+    simp only [hg] at h
+    split at h
+    · cases h
+    · cases h
+      exact SftpGet.getfo_ok_exact hm hc hg
+  | raised c => simp [hg] at h
+  | fuel => simp [hg] at h
+
+/-- **A failed read raises**: whenever the transfer loop issues a read request and the server fails it with code
+    `c`, the transfer raises `c` — whatever has been transferred before and whatever would follow. -/
+theorem failed_read_raises (remote : Bytes) (maxReq chunk fuel c : Nat) (loc : Bytes) (rest : List SftpGet.RdOut)
+    (hc : 0 < chunk) : SftpGet.transfer remote maxReq chunk (fuel + 1) loc (.fail c :: rest) = .raised c :=
+  SftpGet.transfer_fail hc
+
+/-- a failing stat or open raises before anything is transferred -/
+theorem failed_stat_or_open_raises (remote : Bytes) (maxReq chunk statCode openCode : Nat) (plan : List SftpGet.RdOut)
+    (fuel : Nat) (h : statCode ≠ 0 ∨ openCode ≠ 0) :
+    ∃ c, SftpGet.getfo remote maxReq chunk statCode openCode plan fuel = .raised c := by
+  unfold SftpGet.getfo
+  by_cases hs : statCode ≠ 0
+  · exact ⟨statCode, by simp [hs]⟩
+  · have ho : openCode ≠ 0 := by rcases h with h | h; exact absurd h hs; exact h
+    exact ⟨openCode, by simp [hs, ho]⟩
+
+/-- non-vacuity: short reads are re-requested and the result is the whole file; a failing third request raises -/
+example : SftpGet.getfo [0, 1, 2, 3, 4, 5, 6, 7, 8, 9, 10, 11] 4 5 0 0 [.data 2, .data 9, .data 1] 1000
+    = .ok [0, 1, 2, 3, 4, 5, 6, 7, 8, 9, 10, 11] := by decide
+example : SftpGet.getfo [0, 1, 2, 3, 4, 5, 6, 7, 8, 9, 10, 11] 4 5 0 0 [.data 2, .data 9, .fail 3] 1000
+    = .raised 3 := by decide
 
 /-- non-vacuity 1: a pipelined write is rejected (plan `[0, 3, 0]`), the ghost counter registers it, close raises the
     saved error and resets the counter. -/
